@@ -22,9 +22,14 @@ import z3
 
 from . import values as V
 from .extract import ExtractionError, Repo
-from .interp import BoundMethod, Ctx, Interp, ModelObject, Obj, PyFunc, ReturnSignal
+from .interp import BoundMethod, Ctx, ForallP, Interp, ModelObject, Obj, PyFunc, ReturnSignal
 from .solve import Verdict, check_sat, discharge
 from .values import Arr, Filtered, PathInfeasible, PyRaise, Unsupported
+
+
+import os
+
+DEBUG = bool(os.environ.get("PYVC_DEBUG"))
 
 
 class Args(dict):
@@ -68,8 +73,8 @@ class Spec:
         """positional args, kwargs for the real function from the Args"""
         return list(a.values()), {}
 
-    def compare_roots(self, a, result):
-        """Objects compared between real run and model (default: result and all args)."""
+    def compare_roots(self, a, b, result):
+        """(label, real, specified) triples compared after the call (default: every argument)."""
         return None
 
     # --- call-site use (modular)
@@ -84,7 +89,7 @@ class Spec:
             env.pop("__class__", None)
             a = Args(env)
             for label, f in spec.requires(cx, a):
-                cx.oblige(f"precondition of {spec.unit_name()}: {label}", f, kind="pre")
+                cx.oblige_item(f"precondition of {spec.unit_name()}: {label}", f, kind="pre")
             r = spec.model(cx, a)
             if r is NotImplemented:
                 raise Unsupported(f"{spec.unit_name()} has no functional model for call sites")
@@ -252,7 +257,7 @@ def run_unit(spec: Spec, repo: Repo | None = None, timeout_s=20.0, want_smt2=Fal
         try:
             a = spec.inputs(cx)
             for _label, f in spec.requires(cx, a):
-                cx.assume(f)
+                cx.assume_item(f)
             if npath == 0:
                 res.requires_sat = check_sat(list(cx.pc) + list(V.AXIOMS))
                 if res.requires_sat == "unsat":
@@ -300,6 +305,8 @@ def run_unit(spec: Spec, repo: Repo | None = None, timeout_s=20.0, want_smt2=Fal
         axioms = list(V.AXIOMS)
         for ob in cx.obls:
             v = discharge(ob, axioms, timeout_s=timeout_s, want_smt2=want_smt2)
+            if DEBUG:
+                print(f"   [{spec.unit_name()} path {npath}] {v.status} {v.backend} {v.time_s:.2f}s {ob.kind} {ob.label[:100]}", flush=True)
             res.obligations.append(ObRecord(spec.unit_name(), ob.label, ob.kind, ob.loc, npath, v))
         res.inlined = sorted(set(res.inlined) | cx.inlined)
         res.called_specs = sorted(set(res.called_specs) | cx.called_specs)
@@ -333,12 +340,13 @@ def _post(spec: Spec, cx, a, b, outcome):
     m = spec.model(cx, b)
     if m is not NotImplemented:
         compare(cx, result, m, "result")
-        roots = spec.compare_roots(a, result)
-        keys = list(a.keys()) if roots is None else roots
-        for k in keys:
-            compare(cx, a[k], b[k], f"state after call: {k}")
+        roots = spec.compare_roots(a, b, result)
+        if roots is None:
+            roots = [(f"state after call: {k}", a[k], b[k]) for k in a.keys()]
+        for lab, x, y in roots:
+            compare(cx, x, y, lab)
     for label, f in spec.ensures(cx, a, result):
-        cx.oblige(label, f, kind="post")
+        cx.oblige_item(label, f, kind="post")
 
 
 class Lemma:
